@@ -192,6 +192,24 @@ impl C09 {
         let parent = parent.read().unwrap();
         let lay = parent.layout.as_ref().unwrap();
         let mut got: BTreeMap<String, (i64, i64)> = BTreeMap::new();
+        // placement order (C17's clause for the placer's orderer): each instance once, and after the instance it was placed relative to
+        let listed: Vec<String> = lay.instances.iter().map(|i| i.read().unwrap().inst_name.clone()).collect();
+        for (k, s) in p.specs.iter().enumerate() {
+            let pos = listed.iter().position(|n| *n == s.name);
+            if listed.iter().filter(|n| **n == s.name).count() > 1 {
+                cx.violation(&format!("{}|place-order|instance-listed-twice", class), json!({"instance": s.name, "order": listed}));
+                return None;
+            }
+            if let (Some((to, ..)), Some(pk)) = (&s.rel, pos) {
+                if let Some(pt) = listed.iter().position(|n| *n == p.specs[*to].name) {
+                    if pt > pk {
+                        cx.violation(&format!("{}|place-order|placed-before-its-reference", class), json!({"instance": s.name, "reference": p.specs[*to].name, "order": listed}));
+                        return None;
+                    }
+                }
+            }
+            let _ = k;
+        }
         for i in lay.instances.iter() {
             let i = i.read().unwrap();
             match &i.loc {
